@@ -772,8 +772,13 @@ def _exts(hdr, pre):
     return out
 
 
-def judge_der(blob, cls, want, lax_info=None):
-    """cls: valid / trailing / other.  Returns (mismatches, info key or None)."""
+UNREAD_KEY = "C10|sigdecode_der|openssl=False|class=unreadable|why=%s|expected=refuse|got=accept"
+
+
+def judge_der(blob, cls, want, lax_info=None, why=None):
+    """cls: valid / trailing / fail (DerSig!Unreadable; why = the machine's reason when it was exported with the
+    blob) / other.  Returns (mismatches, info key or None); info "unreadable" = strict decoding accepted an unreadable
+    blob whose reason still has to be asked from the machine (stage derask)."""
     out = []
     info = None
     for openssl in (False, True):
@@ -792,6 +797,13 @@ def judge_der(blob, cls, want, lax_info=None):
             if not openssl and got[0] == "ok":
                 out.append(("C10|sigdecode_der|openssl=False|class=trailing|expected=refuse|got=accept",
                             "strict decoding accepts %s, which has trailing bytes" % blob.hex()))
+        elif cls == "fail":
+            if not openssl and got[0] == "ok":
+                if why is None:
+                    info = "unreadable"
+                else:
+                    out.append((UNREAD_KEY % why, "strict decoding accepts %s as (%x, %x); it is no encoding of two integers under any "
+                                "reading of X.690 (%s)" % (blob.hex(), got[1], got[2], why)))
         elif not openssl and got[0] == "ok":
             info = "strict mode accepts " + (lax_info or "unreadable blob")
     return out, info
@@ -801,6 +813,7 @@ def _der_worker(recs):
     hdr = _G["derhdr"]
     mism = {}
     info = {}
+    unread = []
     n = 0
     nv = 0
     for rec in recs:
@@ -819,13 +832,18 @@ def _der_worker(recs):
                 nv += 1
             elif e in trailing:
                 bad, i = judge_der(blob, "trailing", None)
+            elif e in lax:
+                bad, i = judge_der(blob, "other", None, lax[e])
             else:
-                bad, i = judge_der(blob, "other", None, lax.get(e))
+                bad, i = judge_der(blob, "fail", None)
             if bad:
                 _merge(mism, bad)
-            if i:
+            if i == "unreadable":
+                if len(unread) < 400:
+                    unread.append(blob)
+            elif i:
                 info[i] = info.get(i, 0) + 1
-    return n, nv, mism, info
+    return n, nv, mism, info, unread
 
 
 def replay_der(ctx, cfg, r):
@@ -844,6 +862,7 @@ def replay_der(ctx, cfg, r):
         for k, c in x[3].items():
             d = ctx.extra.setdefault("der_not_demanded_but_observed", {})
             d[k] = d.get(k, 0) + c
+        _G.setdefault("unread", set()).update(x[4])
     for rec in recs:
         nt += len(rec["trailing"])
         for v in rec["valid"]:
@@ -897,10 +916,61 @@ def replay_dersig(ctx, r):
                     n += 1
                     for key, what in bad:
                         ctx.fail(key.replace("class=trailing", "class=%s-trailing" % kind), what, {"blob": t})
+            # an integer announcing more octets than it has: the machine's verdict on each such blob
+            for o in v["over"]:
+                blob = bytes(o["b"])
+                n += 1
+                if o["cls"] == "valid":
+                    bad, _ = judge_der(blob, "valid", (int.from_bytes(bytes(o["r"]), "big"), int.from_bytes(bytes(o["s"]), "big")))
+                elif o["cls"] == "trailing":
+                    bad, _ = judge_der(blob, "trailing", None)
+                elif o["cls"] == "fail":
+                    bad, _ = judge_der(blob, "fail", None, why=o["why"])
+                    ctx.case(("der-overrun", szr, o["why"]), 0)
+                else:
+                    bad, _ = judge_der(blob, "other", None, "lax")
+                for key, what in bad:
+                    ctx.fail(key, what, {"blob": blob.hex(), "tlc": o["cls"] + " " + o["why"]})
     ctx.replayed += n
     ctx.case(None, n)
     ctx.action("replay.dersig", n)
     ctx.log("dersig: %d encodings / trailing-byte mutations compared" % n)
+
+
+def ask_der(ctx, blobs):
+    """the DerSig machine's verdict [cls, why, dev] on each blob (stage derask)"""
+    fd, path = tempfile.mkstemp(prefix="vf-c10-ask-", suffix=".json")
+    with os.fdopen(fd, "w") as f:
+        json.dump([list(b) for b in blobs], f)
+    try:
+        r = ctx.tlc("MC_KeyEnc", "MC_KeyEnc_derask", workers=4, env={"DER_ASK": path}, timeout=900)
+    finally:
+        os.unlink(path)
+    ans = {x["i"]: x for x in r.records if isinstance(x, dict) and x.get("k") == "derask"}
+    if len(ans) != len(blobs):
+        raise MachineryError("derask: %d answers for %d blobs" % (len(ans), len(blobs)))
+    return [ans[i + 1] for i in range(len(blobs))]
+
+
+def resolve_unreadable(ctx):
+    """strict decoding accepted blobs of the enumerated families that the machine cannot read at all: ask the machine
+    for its reason (it names the class of the finding) and report them"""
+    blobs = sorted(_G.pop("unread", set()))
+    if not blobs:
+        return
+    blobs = blobs[:2000]
+    ans = ask_der(ctx, blobs)
+    by = {}
+    for i, b in enumerate(blobs):
+        a = ans[i]
+        if a["cls"] != "fail":
+            raise MachineryError("derask: blob %s was exported as unreadable, the machine now says %s" % (b.hex(), a["cls"]))
+        by.setdefault(a["why"], []).append(b)
+    for why, bs in sorted(by.items()):
+        got = K.der_decode(bs[0], False)
+        ctx.fail(UNREAD_KEY % why, "strict decoding accepts %s as %s; it is no encoding of two integers under any reading of X.690 (%s); "
+                 "%d such blobs in the enumerated families" % (bs[0].hex(), got[1:], why, len(bs)), {"examples": [b.hex() for b in bs[:MAXREP * 4]]})
+    ctx.action("replay.derask", len(blobs))
 
 
 # ------------------------------------------------------------------------------------------ traces (code -> spec)
@@ -980,9 +1050,33 @@ def _rand_sig_blob(rnd):
     return r, s
 
 
-def _mutate_der(rnd, enc):
+def _bump_int(rnd, enc):
+    """one INTEGER of a two-integer encoding (short-form lengths) announces 1 or 2 octets more than it has; the sequence
+    length is left, or raised by 1 or 2"""
     b = bytearray(enc)
-    m = rnd.randrange(9)
+    if len(b) < 8 or b[1] >= 0x7d or b[3] >= 0x7d:
+        return bytes(b), "none"
+    which = rnd.choice([1, 2, 2])
+    pos = 3 if which == 1 else 5 + b[3]
+    if pos >= len(b) or b[pos] >= 0x7d:
+        return bytes(b), "none"
+    d = rnd.choice([1, 1, 2])
+    adj = rnd.choice([0, 0, d, 1])
+    b[pos] += d
+    b[1] += adj
+    return bytes(b), "int%d-len+%d-seq+%d" % (which, d, adj)
+
+
+def _mutate_der(rnd, enc):
+    """(mutated blob, label of the mutation)"""
+    m = rnd.randrange(12)
+    if m >= 9:
+        return _bump_int(rnd, enc)
+    return _mutate_der0(rnd, enc, m), "m%d" % m
+
+
+def _mutate_der0(rnd, enc, m):
+    b = bytearray(enc)
     if m == 0:
         return bytes(b) + bytes(rnd.randrange(256) for _ in range(rnd.randint(1, 3)))          # outer trailing
     if m == 1 and b[1] < 0x7c:
@@ -1081,11 +1175,12 @@ def record_traces(seed, count):
                     ev.append({"e": "derenc", "r": [], "s": [], "b": enc[0]})
                     continue
                 ev.append({"e": "derenc", "r": _mag(r)["mag"], "s": _mag(s)["mag"], "b": _bl(enc[1])})
-                blob = enc[1] if rnd.random() < 0.25 else _mutate_der(rnd, enc[1])
+                blob, mut = (enc[1], "none") if rnd.random() < 0.25 else _mutate_der(rnd, enc[1])
                 if rnd.random() < 0.15:
                     blob = bytes(rnd.choice([0, 1, 2, 0x30, 0x30, 0x7f, 0x80, 0x81, 0xff, rnd.randrange(256)]) for _ in range(rnd.randint(0, 12)))
-                ev.append(_der_event(blob, False))
-                ev.append(_der_event(blob, True))
+                    mut = "random"
+                ev.append(dict(_der_event(blob, False), mut=mut))
+                ev.append(dict(_der_event(blob, True), mut=mut))
         elif kind == 4:      # ---- public points in every representation
             from pycoin.ecdsa.secp256r1 import secp256r1_generator as r1
             g = K.secp256k1_generator
@@ -1150,6 +1245,38 @@ def record_traces(seed, count):
                     e["raised"] = True
                 ev.append(e)
         traces.append({"kind": ["session", "secf", "der", "wifp", "pub"][kind], "ev": ev})
+    # ---- the text form of public keys: one session on EVERY network that loads, with the prefix that network writes
+    for sym, net, _ in nets:
+        se = rnd.randrange(1, K.N)
+        comp = rnd.random() < 0.5
+        got = K.key_from_se(type(net.keys.private(1)), se, is_compressed=comp)
+        ev = [{"e": "new", "se": _bl(se.to_bytes(32, "big")), "comp": comp, "ok": got[0] == "ok", "exc": got[0], "net": sym}]
+        if got[0] == "ok":
+            k = got[2]
+            texts = []
+            for c, via in ((1, "sec_as_hex"), (0, "sec_as_hex"), (-1, "as_text"), (-1, "sec_as_hex")):
+                try:
+                    blob = k.sec() if c == -1 else k.sec(is_compressed=bool(c))
+                    text = k.public_copy().as_text() if via == "as_text" else (k.sec_as_hex() if c == -1 else k.sec_as_hex(is_compressed=bool(c)))
+                    cut = len(text) - 2 * len(blob)
+                    ev.append({"e": "sectext", "c": c, "via": via, "net": sym, "b": _bl(blob), "text": [ord(ch) for ch in text],
+                               "pfx": [ord(ch) for ch in text[:max(cut, 0)]]})
+                    texts.append((text, blob, text[:max(cut, 0)]))
+                except Exception as e:  # noqa: BLE001
+                    ev.append({"e": "sectext", "c": c, "via": via, "net": sym, "b": [], "text": [], "pfx": [], "exc": K._exc(e)})
+            for text, blob, tp in texts[:2]:
+                for via in ("parse.sec", "parse.public_key"):
+                    e = {"e": "parsesec", "via": via, "net": sym, "b": _bl(blob), "text": [ord(ch) for ch in text], "pfx": [ord(ch) for ch in tp],
+                         "ok": False, "comp": False, "rb": [], "got": "none"}
+                    try:
+                        f = net.parse.sec if via == "parse.sec" else net.parse.public_key
+                        pk = f(text)
+                        if pk is not None:
+                            e.update(ok=True, comp=bool(pk.is_compressed()), rb=_bl(pk.sec()), got="key")
+                    except Exception as ex:  # noqa: BLE001
+                        e["got"] = K._exc(ex)
+                    ev.append(e)
+        traces.append({"kind": "sectext", "ev": ev})
     return traces
 
 
@@ -1246,7 +1373,14 @@ def validate_traces(ctx, batches):
 def _trace_key(ev):
     e = ev["e"]
     if e == "der":
-        return "C10|trace|der|openssl=%s|res=%s%s" % (ev["openssl"], ev["res"], ("|" + ev["exc"]) if ev["res"] == "raised" else "")
+        return "C10|trace|der|openssl=%s|res=%s%s%s" % (ev["openssl"], ev["res"], ("|" + ev["exc"]) if ev["res"] == "raised" else "",
+                                                        ("|blob=" + ev["verdict"]) if ev.get("verdict") else "")
+    if e == "sectext":
+        return "C10|trace|sectext|via=%s|form=%s" % (ev.get("via"), ev.get("c"))
+    if e == "parsesec":
+        return "C10|trace|parsesec|via=%s|form=%s|prefix=%s|got=%s" % (
+            ev.get("via"), "c" if len(ev["b"]) == 33 else "u",
+            "none" if not ev["pfx"] else "colon" if ev["pfx"][-1] == 58 else "plain", ev.get("got"))
     if e == "sec":
         return "C10|trace|sec|layer=%s|strict=%s|got=%s" % (ev.get("layer"), ev["strict"], ev["exc"] if ev["raised"] else ev["ok"])
     if e == "secf":
@@ -1267,7 +1401,17 @@ def _trace_key(ev):
 def run_traces(ctx, batches):
     """batches: list of (curve, label, traces); returns the accepted traces"""
     good = []
-    for (cname, label, traces), rej in zip(batches, validate_traces(ctx, [(c, t) for c, _, t in batches])):
+    rejs = validate_traces(ctx, [(c, t) for c, _, t in batches])
+    # rejected DER events: the machine's own verdict on the blob names the class of the finding
+    ask = []
+    for (cname, label, traces), rej in zip(batches, rejs):
+        for i, j in rej:
+            if 0 <= j < len(traces[i]["ev"]) and traces[i]["ev"][j].get("e") == "der" and traces[i]["kind"] != "ground-truth":
+                ask.append(traces[i]["ev"][j])
+    if ask:
+        for e, a in zip(ask, ask_der(ctx, [bytes(e["b"]) for e in ask[:500]])):
+            e["verdict"] = a["cls"] + (":" + a["why"] if a["cls"] == "fail" else "")
+    for (cname, label, traces), rej in zip(batches, rejs):
         ctx.traces += len(traces) - len(rej)
         ctx.case(None, sum(len(t["ev"]) for t in traces))
         ctx.action("trace." + label, len(traces))
@@ -1298,8 +1442,10 @@ def run(ctx):
         "on-curve validation of UNCOMPRESSED blobs is anchored at Key construction (property anchors): sec_to_public_pair may hand "
         "out an off-curve pair of a well-formed 04/06/07 blob provided Key() and verify() refuse it (checked for each such pair)",
         "integers that are not field elements but congruent to a point, given directly to Key(public_pair=...): refused, or read as that point (KeyEnc!LiftOutcomeOk: every SEC form of the key that comes back decodes to it)",
-        "DER: only demanded are round trip of strict encodings, refusal of trailing bytes in strict mode, and exceptions "
-        "limited to UnexpectedDER/ValueError; other leniencies are counted in der_not_demanded_but_observed",
+        "DER: demanded are round trip of strict encodings, refusal in strict mode of trailing bytes and of blobs that are no encoding "
+        "of two integers under any reading of X.690 (DerSig!Unreadable: truncated, wrong tag, integer missing), and exceptions limited to "
+        "UnexpectedDER/ValueError; acceptance of BER-but-not-DER forms (long lengths, padded / negative integers) is counted in "
+        "der_not_demanded_but_observed",
         "GRS/GRSRT/TGRS networks cannot be imported in this sandbox (groestlcoin_hash missing)",
     ]
     if not K.selfcheck_reference():
@@ -1335,6 +1481,7 @@ def run(ctx):
         elif name.startswith("der_"):
             replay_der(ctx, name, r)
         r.records = []
+    resolve_unreadable(ctx)
     if ctx.only and "trace" not in ctx.only:
         return
 
